@@ -192,6 +192,10 @@ func c12SendCase(r *Rng, i int) {
 	if p.q >= 1 && p.q <= 3 {
 		p.q = 0
 	}
+	if c12AboveInt64(p.kind, p.q) {
+		p.q = 1<<63 - 1 - uint(r.Intn(3))
+		Stat("send:excluded-known-class(limit-above-int64)")
+	}
 	line, real, bad := c12JudgeSend(p)
 	Case(line, real)
 	Stat("send:kind:" + p.kind)
